@@ -65,6 +65,8 @@ Proof.
       rewrite (trig_get_contents _ _ _ E3), (trig_get_contents _ _ _ E2). exact P.
     + destruct (trig_get _) as [[s2 ts]|] eqn:E2; simpl in *; [|discriminate].
       rewrite (trig_get_contents _ _ _ E2). exact P.
+    + destruct (trig_get _) as [[s2 ts]|] eqn:E2; simpl in *; [|discriminate].
+      rewrite (trig_get_contents _ _ _ E2). exact P.
   - destruct (existsb (owns2 p t) (getres s)); simpl; [|reflexivity].
     destruct (index_where (tokb2 t) (getres s)) as [i|]; simpl; [|reflexivity].
     destruct (nth_error (getres s) i) as [[r it]|]; simpl; [|reflexivity].
@@ -92,6 +94,7 @@ Proof.
     rewrite !app_nil_r. rewrite (remove_first_eqb_perm _ _ EX) at 2. simpl.
     rewrite app_assoc. rewrite <- Permutation_cons_append. reflexivity.
   - reflexivity.
+  - tp. simpl. rewrite trig_put_contents. reflexivity.
   - destruct (next s <=? n); reflexivity.
 Qed.
 
@@ -149,13 +152,13 @@ Qed.
 Definition NoLost (s : store) : Prop :=
   (putq s <> [] -> admit_put s = false) /\ (getq s <> [] -> admit_get s = false).
 
-Lemma admit_put_nobelt s : s_kind s <> KBelt -> admit_put s = (used s <? cap s).
-Proof. unfold admit_put. destruct (s_kind s); try congruence; intros _; apply andb_true_r. Qed.
+Lemma admit_put_nobelt s : is_belt (s_kind s) = false -> admit_put s = (used s <? cap s).
+Proof. unfold admit_put. destruct (s_kind s); simpl; try discriminate; intros _; apply andb_true_r. Qed.
 
 (* after one pass of the put trigger nothing servable is left, provided at most one unit was
    free whenever two or more requests were waiting *)
 Lemma trig_put_nolost s :
-  s_kind s <> KBelt ->
+  is_belt (s_kind s) = false ->
   (forall r1 r2 q, putq s = r1 :: r2 :: q -> cap s <= used s + 1) ->
   putq (fst (trig_put s)) <> [] -> admit_put (fst (trig_put s)) = false.
 Proof.
@@ -181,7 +184,7 @@ Proof.
   - inversion E; subst. auto.
 Qed.
 
-Lemma admit_put_false s : s_kind s <> KBelt -> Inv s -> admit_put s = false -> used s = cap s.
+Lemma admit_put_false s : is_belt (s_kind s) = false -> Inv s -> admit_put s = false -> used s = cap s.
 Proof.
   intros NB (H1 & _) E. rewrite admit_put_nobelt in E by auto. apply Nat.ltb_ge in E. lia.
 Qed.
@@ -217,7 +220,7 @@ Proof.
 Qed.
 
 Theorem step_nolost s o :
-  s_kind s <> KBelt -> Inv s -> fresh_op s o -> NoLost s -> NoLost (step_st s o).
+  is_belt (s_kind s) = false -> Inv s -> fresh_op s o -> NoLost s -> NoLost (step_st s o).
 Proof.
   intros NB HI HF (NP & NG). pose proof HI as (H1 & H2 & H3 & H4).
   pose proof (inv_getres_le _ HI) as HL.
@@ -251,7 +254,7 @@ Proof.
     assert (NoLost s1) as NL1.
     { split; [rewrite A1, A2; exact NP | rewrite A3, A4; exact NG]. }
     clear K1.
-    destruct (s_kind s) eqn:EK; try congruence.
+    destruct (s_kind s) eqn:EK; simpl in NB; try discriminate.
     + destruct (trig_get s1) as [[s2 ts]|] eqn:E2; simpl; [|split; auto].
       rewrite (trig_get_nogrant _ _ _ E2 HC). exact NL1.
     + destruct (trig_get s1) as [[s2 ts]|] eqn:E2; simpl; [|split; auto].
@@ -330,6 +333,10 @@ Proof.
       assert (length (getres s) = length (ready s)) by (apply admit_get_false; auto; apply NG; congruence).
       rewrite app_length; simpl. lia.
   - (* SetGate *) split; simpl; auto. rewrite admit_put_nobelt in * by (simpl; auto). exact NP.
+  - (* TrigPut *) tp. simpl. split.
+    + apply trig_put_nolost; [exact NB|]. intros r1 r2 q EQ.
+      assert (used s = cap s) by (apply admit_put_false; auto; apply NP; congruence). lia.
+    + destruct (trig_put_getpart s) as (-> & ->). exact NG.
   - (* Sync *) destruct (next s <=? n); simpl; split; auto;
       rewrite admit_put_nobelt in * by (simpl; auto); exact NP.
 Qed.
@@ -356,7 +363,7 @@ Lemma init_nolost k m c : NoLost (init k m c).
 Proof. split; simpl; congruence. Qed.
 
 Lemma run_nolost_gen ops : forall s seen,
-  s_kind s <> KBelt -> Inv s -> NoLost s -> incl (contents s) seen -> NoDup (seen ++ put_ids ops) ->
+  is_belt (s_kind s) = false -> Inv s -> NoLost s -> incl (contents s) seen -> NoDup (seen ++ put_ids ops) ->
   NoLost (run s ops).
 Proof.
   induction ops as [|o ops IH]; intros s seen NB HI NL HS ND; simpl; auto.
@@ -365,7 +372,7 @@ Proof.
   { destruct o; simpl; auto. intros Hi. simpl in ND.
     eapply NoDup_app_disj; [exact ND| apply HS; exact Hi | left; reflexivity]. }
   pose proof (step_inv s o HI HF) as HI'. pose proof (step_nolost s o NB HI HF NL) as NL'.
-  assert (s_kind (step_st s o) <> KBelt) as NB' by (rewrite step_kind; exact NB).
+  assert (is_belt (s_kind (step_st s o)) = false) as NB' by (rewrite step_kind; exact NB).
   destruct o; simpl in ND;
     try (apply (IH _ seen);
          [ exact NB' | exact HI' | exact NL'
@@ -379,7 +386,7 @@ Proof.
 Qed.
 
 Theorem nolost_reachable k m c ops :
-  k <> KBelt -> NoDup (put_ids ops) -> NoLost (run (init k m c) ops).
+  is_belt k = false -> NoDup (put_ids ops) -> NoLost (run (init k m c) ops).
 Proof.
   intros NB ND. apply (run_nolost_gen ops _ []); auto.
   - apply init_inv.
